@@ -858,8 +858,11 @@ sexp sexp_print_exception_op (sexp ctx, sexp self, sexp_sint_t n, sexp exn, sexp
     return sexp_print_exception_op(ctx, self, n, sexp_exception_irritants(exn), out);
   }
   sexp_gc_preserve2(ctx, ls, tmp);
-  if (! sexp_oportp(out))
+  if (! sexp_oportp(out)) {
     out = tmp = sexp_make_output_port(ctx, stderr, SEXP_FALSE);
+    /* the port is a throw-away wrapper: stderr is not ours to close */
+    if (sexp_oportp(out)) sexp_port_no_closep(out) = 1;
+  }
   sexp_write_string(ctx, "ERROR", out);
   if (sexp_exceptionp(exn)) {
     if (sexp_exception_procedure(exn)) {
